@@ -158,9 +158,47 @@ let judge_pre ins outs =
                     (List.length chunks) (if starts then "valid preface" else "?"))
    | _, _ -> VDisagree ("preface outcome " ^ String.concat "_" outs))
 
+(* ASY: both endpoints send concurrently, the client reads slowly; all frames received are in the
+   last step.  Per destination and per class (queued frames, direct frames, credit) the sequence
+   received must be exactly what the model delivers: frames are written whole and in order
+   whatever the interleaving of the three goroutines that write to one destination. *)
+let judge_async ltoks outs =
+  let lab0 = List.map parse_label ltoks in
+  let labels = List.map (fun (y, fr) -> { l_from = y; l_frame = fr; l_order = [] }) lab0 in
+  let rsteps = parse_out outs in
+  let real = List.concat_map (fun s -> s.evs) rsteps in
+  let odd = List.concat_map (fun s -> s.odd) rsteps in
+  let err = List.exists (fun s -> s.err <> None) rsteps in
+  let o = List.map (fun s -> s.evs) rsteps in
+  let (_, mobs) = run s0 labels in
+  let model = List.concat mobs in
+  let cls w = match w with
+    | WData _ | WBlock _ | WPrio _ | WRst _ -> 0
+    | WWin _ -> 2
+    | _ -> 1 in
+  let proj evs x c = List.filter_map (fun (t, w) -> if t = x && cls w = c then Some w else None) evs in
+  let bad = ref None in
+  List.iter (fun x -> List.iter (fun c ->
+      if !bad = None && proj model x c <> proj real x c then
+        bad := Some (Printf.sprintf "to-%s class-%s: expected %d frames, received %d%s"
+                       (match x with Cl -> "client" | Sv -> "server")
+                       (List.nth ["queued"; "direct"; "credit"] c)
+                       (List.length (proj model x c)) (List.length (proj real x c))
+                       (let rec first i a b = match a, b with
+                          | u :: a', v :: b' -> if u = v then first (i + 1) a' b' else Printf.sprintf "; first difference at frame %d: want %s got %s" i (pr_wire u) (pr_wire v)
+                          | _ -> "" in first 0 (proj model x c) (proj real x c)))) [0; 1; 2]) [Cl; Sv];
+  if List.length mobs <> List.length labels then VDisagree "async script not accepted by the model"
+  else if odd <> [] then VPropfail ("concurrent_writes", "destination could not parse what the relay wrote: " ^ String.concat "_" odd)
+  else if not (b_faithful false labels o) then VPropfail ("stream_faithful", "async: " ^ (match !bad with Some d -> d | None -> ""))
+  else if not (b_direct labels o) && not err then VPropfail ("direct_identical", "async: " ^ (match !bad with Some d -> d | None -> ""))
+  else match !bad with
+    | Some d -> VPropfail ("concurrent_writes", d ^ (if err then " (run did not complete)" else ""))
+    | None -> if err then VPropfail ("concurrent_writes", "run did not complete") else VOk true
+
 let judge _name ins outs =
   match ins with
   | "PRE" :: chunks -> judge_pre chunks outs
+  | mode :: ltoks when String.length mode > 4 && String.sub mode 0 4 = "ASY:" -> judge_async ltoks outs
   | mode :: ltoks when mode = "STEP" || (String.length mode > 4 && (String.sub mode 0 4 = "E2E:" || String.sub mode 0 4 = "E2W:")) ->
       let lab0 = List.map parse_label ltoks in
       let rsteps = parse_out outs in
